@@ -67,10 +67,10 @@ def run(tier, replay=None):
     if replay:
         cases = [convcorr.Case(json.load(open(replay))["input"], "replay")]
     else:
-        cases = convcorr.programs(rng, 200 if quick else 5000, features=gen.DEFAULT_FEATURES)
+        cases = convcorr.programs(rng, 200 if quick else 1500, features=gen.DEFAULT_FEATURES)
         # token-level mutants of generated programs and samples (only the accepted ones matter)
         base = [c.src for c in cases]
-        for s in base[: (300 if quick else 4000)]:
+        for s in base[: (300 if quick else 1200)]:
             cases.append(convcorr.Case(mutate(rng, s), "mutant"))
         # adversarial sources for the known classes
         for s in ["if True then\n    # only a comment\nprint(1)\n", "def a := 007\n", "def a := \"x\ny\"\n",
@@ -131,6 +131,70 @@ def run(tier, replay=None):
             pass   # layout fine, something else is invalid (literal classes): reported by the oracle above
         if len(samples) < 3 and c.kind == "generated" and len(model_lines) > 6:
             samples.append({"source": c.src[:200], "lines": [f"{n}:{' '.join(t)}" for n, t in model_lines[:8]]})
+    # files as written: transpile_dir into a target that already holds a LONGER file of the same name; whatever
+    # is then on disk must be the emitted text and must compile (a stale tail would not)
+    disk_n = disk_ok = 0
+    if not replay:
+        import os
+        from .common import CACHE
+        from .c13 import parse_listing
+        base = os.path.join(CACHE, "c02tmp")
+        os.makedirs(base, exist_ok=True)
+        stale = ")))) stale tail ((((\n" * 400
+        chosen = [c for c in cases if c.kind in ("generated", "adversarial") and "0" in c.impl][: (40 if quick else 400)]
+        reqs = []
+        for k, c in enumerate(chosen):
+            for a in "01":
+                ents = f"F:{hexs('src/a.mamba')}:{hexs(c.src)},F:{hexs('target/a.py')}:{hexs(stale)}"
+                reqs.append(f"k{k}_{a}\tproject\tdir\t{hexs(base)}\t{a}\t~\t~\t1\t{ents}")
+        dres = run_sharded(MH, reqs) if reqs else {}
+        for k, c in enumerate(chosen):
+            for a in "01":
+                r = dres.get(f"k{k}_{a}")
+                if not r or r[0] != "OK" or len(r) < 3 or a not in c.impl:
+                    continue
+                tree = parse_listing(r[2])
+                got = tree.get("target/a.py")
+                if got is None:
+                    continue
+                disk_n += 1
+                text = got.decode("utf-8", "replace")
+                okc, err = compiles(text)
+                if okc and text.replace("\r\n", "\n").rstrip() == c.impl[a][1].replace("\r\n", "\n").rstrip():
+                    disk_ok += 1
+                elif not compiles(c.impl[a][1])[0]:
+                    disk_ok += 1          # the emitted text itself is invalid: judged above
+                else:
+                    p = ck.write_replay("oracle", {"input": c.src, "annotate": a, "on_disk": text[-400:], "emitted": c.impl[a][1][-400:],
+                                                    "error": err, "scenario": "target/a.py existed before, longer than the new output"})
+                    ck.violation("the file written to disk is not the emitted text / is not valid Python: " + (err or "differs"), p,
+                                 f"CAUSE:disk\nSRC:{c.src}")
+    ck.cov["files_on_disk_checked"] = disk_n
+    # expressions in operand positions: every Core expression tree of depth <= 2 (the enumeration of C10), printed
+    # by the implementation, must be accepted by python3 as an expression
+    expr_n = 0
+    if not replay:
+        import itertools
+        from . import c10
+        d1 = c10.depth1()
+        trees = list(dict.fromkeys(d1 + [ctx(ch) for (pn, ctx), ch in itertools.product(c10.PARENTS, d1)]))
+        if quick:
+            trees = trees[::3]
+        ids = {f"x{i}": t for i, t in enumerate(trees)}
+        im = run_sharded(MH, [f"{i}\tprint\t{t}" for i, t in ids.items()])
+        mo = run_sharded(DRIVER, [f"{i}\tptoks\t{t}" for i, t in ids.items()])
+        for i, t in ids.items():
+            ir, mr = im.get(i, ["MISSING"]), mo.get(i, ["MISSING"])
+            if ir[0] != "OK" or mr[0] != "OK" or mr[1] != "T":
+                continue          # not a well-formed tree of the model: nothing to judge
+            text = unhex(ir[1]).rstrip("\n")
+            expr_n += 1
+            try:
+                compile("(" + text + "\n)", "<expr>", "eval")
+            except (SyntaxError, ValueError) as e:
+                p = ck.write_replay("oracle", {"core_expression": t, "printed": text, "error": str(e)})
+                ck.violation("an expression is printed as text Python rejects: " + text[:80], p, f"CAUSE:expr\nOUT:{text}")
+    ck.cov["expression_trees_compiled"] = expr_n
     if lines_bad:
         ck.broken.append({"kind": "correspondence", "where": "lines: PyStmt.plines vs tokenised to_py output",
                           "count": len(lines_bad), "examples": [list(x) for x in lines_bad[:3]]})
